@@ -100,7 +100,11 @@ func IsoParent(sub, casesPath, outDir string, n int, describe func(i int) string
 				Stats: map[string]int{"outcome_CRASH": 1}}
 			next = started + 1
 		} else if werr != nil {
-			return nil, fmt.Errorf("worker failed without a culprit: %v\n%s", werr, stderr.String())
+			// a race-built worker that finished its cases exits with the race detector's status when it logged a
+			// data race: the reports are in the GORACE log, which the check reads
+			if ee, ok := werr.(*exec.ExitError); !ok || ee.ExitCode() != 66 {
+				return nil, fmt.Errorf("worker failed without a culprit: %v\n%s", werr, stderr.String())
+			}
 		}
 		os.RemoveAll(wdir)
 	}
